@@ -21,18 +21,19 @@ EXTENDS YeeDefs
 
 CONSTANTS Mode,        \* "energy" | "reverse" | "linear" | "complex"
           Variant,     \* "ok" | "curl_sign" | "shift" | "pec_normal" | "metric_primal" | "rev_nofactor" | "rev_noadj" | "cplx_quad"
-          Family,      \* which configurations: "sweep" | "mixed" | "full" | "one"
+          Family,      \* which boundary configurations: "sweep" | "mixed" | "full" | "list"
+          List,        \* Family = "list": set of codes 1000000 shape + 10000 kx + 100 ky + kz (shape 1..3 = long axis)
           Steps,       \* forward steps per behaviour (energy / linear / complex), run length T (reverse)
           Extra        \* set of codes 1000 mat + 100 loss + 10 wpat + srcset combined with the boundary configurations
 
-VARIABLES key,         \* configuration key << shape, boundary kinds, extra code >> (constant along a behaviour)
+VARIABLES g,           \* compiled configuration (constant along a behaviour)
           r,           \* sequence of run states
           t,           \* time step index
           pc,          \* next sub-step
           prev,        \* run 1 at the previous step boundary (energy mode), else << >>
           s0,          \* run 1 at the start (reverse mode), else << >>
           ab           \* <<alpha, beta>> (linear mode)
-vars == << key, r, t, pc, prev, s0, ab >>
+vars == << g, r, t, pc, prev, s0, ab >>
 
 \* ------------------------------------------------------------ configurations
 Shapes == { << 3, 2, 2 >>, << 2, 3, 2 >>, << 2, 2, 3 >> }
@@ -74,19 +75,17 @@ MkCfg(N, k, x) == Compile(
 LongAxis(N) == CHOOSE a \in 1..3 : N[a] = 3
 Sweep(N) == { kk \in [ 1..3 -> Kinds ] : \A a \in 1..3 : a # LongAxis(N) => kk[a] = (IF a = A1(LongAxis(N)) THEN 1 ELSE 9) }
 Mixed(N) == { << 2, 9, 10 >>, << 13, 4, 6 >>, << 8, 12, 3 >>, << 1, 1, 1 >>, << 5, 5, 5 >>, << 11, 7, 2 >>, << 3, 3, 9 >>, << 9, 13, 13 >> }
-One(N)   == { << 9, 3, 12 >> }
-KindTriples(N) == CASE Family = "sweep" -> Sweep(N) [] Family = "mixed" -> Mixed(N) [] Family = "one" -> One(N)
+ShapeNo(N) == LongAxis(N)
+Listed(N) == { << (c \div 10000) % 100, (c \div 100) % 100, c % 100 >> : c \in { c \in List : c \div 1000000 = ShapeNo(N) } }
+KindTriples(N) == CASE Family = "sweep" -> Sweep(N) [] Family = "mixed" -> Mixed(N) [] Family = "list" -> Listed(N)
                     [] OTHER -> [ 1..3 -> Kinds ]
-FamShapes == IF Family = "one" THEN { << 3, 2, 2 >> } ELSE Shapes
+FamShapes == Shapes
 HasComplexPhase(c) == c.cplx
 NoPhase(c) == c.real
 
-\* all compiled configurations of this instance, tabulated once; the state only carries the key
 Keys == { << N, kk, x >> : N \in FamShapes, kk \in UNION { KindTriples(N) : N \in FamShapes }, x \in Extra }
 ValidKeys == { k \in Keys : k[2] \in KindTriples(k[1]) }
-CfgTable == TLCEval([ k \in ValidKeys |->
-                LET x == k[3] IN MkCfg(k[1], k[2], << x \div 1000, (x \div 100) % 10, (x \div 10) % 10, x % 10 >>) ])
-g == CfgTable[key]
+CfgOf(k) == LET x == k[3] IN MkCfg(k[1], k[2], << x \div 1000, (x \div 100) % 10, (x \div 10) % 10, x % 10 >>)
 
 \* ------------------------------------------------------------ initial field states
 Zero(n) == [ i \in 1..n |-> GZ ]
@@ -104,7 +103,7 @@ NoAmp == << 0, 0 >>
 Coefs == { -1, 2, 3 }
 
 Init ==
-    /\ key \in ValidKeys
+    /\ \E k \in ValidKeys : g = CfgOf(k)
     /\ (Mode = "complex" => NoPhase(g))
     /\ LET n == g.n IN
        CASE Mode = "energy" ->
@@ -150,51 +149,51 @@ PrimeHp ==
     /\ pc = "prime"
     /\ r' = << Prime(g, r[1]) >>
     /\ pc' = "E"
-    /\ UNCHANGED << key, t, prev, s0, ab >>
+    /\ UNCHANGED << g, t, prev, s0, ab >>
 UpdateE ==
     /\ pc = "E" /\ t < Steps
     /\ LET f(k, s) == Store(k, Quad(k, UpdE(g, s, t))) IN r' = Each(f)
     /\ pc' = "wallE"
     /\ prev' = IF Mode = "energy" THEN r[1] ELSE prev      \* the state at the step boundary, with its Hp
-    /\ UNCHANGED << key, t, s0, ab >>
+    /\ UNCHANGED << g, t, s0, ab >>
 WallEStep ==
     /\ pc = "wallE"
     /\ LET f(k, s) == ApplyWallE(g, s) IN r' = Each(f)
     /\ pc' = "H"
-    /\ UNCHANGED << key, t, prev, s0, ab >>
+    /\ UNCHANGED << g, t, prev, s0, ab >>
 UpdateH ==
     /\ pc = "H"
     /\ LET f(k, s) == Store(k, UpdH(g, s, t)) IN r' = Each(f)
     /\ pc' = "wallH"
-    /\ UNCHANGED << key, t, prev, s0, ab >>
+    /\ UNCHANGED << g, t, prev, s0, ab >>
 WallHStep ==
     /\ pc = "wallH"
     /\ LET f(k, s) == ApplyWallH(g, s) IN r' = Each(f)
     /\ t' = t + 1
     /\ pc' = IF Mode = "reverse" THEN "revH" ELSE IF t + 1 < Steps THEN "E" ELSE "done"
-    /\ UNCHANGED << key, prev, s0, ab >>
+    /\ UNCHANGED << g, prev, s0, ab >>
 \* backward() works on time_step - 1
 RevH ==
     /\ pc = "revH"
     /\ LET f(k, s) == RevHU(g, s, t - 1) IN r' = Each(f)
     /\ pc' = "revHw"
-    /\ UNCHANGED << key, t, prev, s0, ab >>
+    /\ UNCHANGED << g, t, prev, s0, ab >>
 RevHWall ==
     /\ pc = "revHw"
     /\ LET f(k, s) == ApplyWallH(g, s) IN r' = Each(f)
     /\ pc' = "revE"
-    /\ UNCHANGED << key, t, prev, s0, ab >>
+    /\ UNCHANGED << g, t, prev, s0, ab >>
 RevE ==
     /\ pc = "revE"
     /\ LET f(k, s) == RevEU(g, s, t - 1) IN r' = Each(f)
     /\ pc' = "revEw"
-    /\ UNCHANGED << key, t, prev, s0, ab >>
+    /\ UNCHANGED << g, t, prev, s0, ab >>
 RevEWall ==
     /\ pc = "revEw"
     /\ LET f(k, s) == ApplyWallE(g, s) IN r' = Each(f)
     /\ t' = t - 1
     /\ pc' = "done"
-    /\ UNCHANGED << key, prev, s0, ab >>
+    /\ UNCHANGED << g, prev, s0, ab >>
 
 Next == PrimeHp \/ UpdateE \/ WallEStep \/ UpdateH \/ WallHStep \/ RevH \/ RevHWall \/ RevE \/ RevEWall
 Spec == Init /\ [][Next]_vars
